@@ -103,7 +103,7 @@ package font
 // Format 6 / 10.
 //@ func cmap6or10.Lookup C11
 //@   mode bv
-//@   requires len(s.entries) <= 1<<31 && 0 <= s.firstCode
+//@   requires len(s.entries) <= 1<<31
 //@   ensures [in-range] implies(r >= s.firstCode && int(r)-int(s.firstCode) < len(s.entries), result1 && result0 == GID(s.entries[int(r)-int(s.firstCode)]))
 //@   ensures [out-of-range] implies(!(r >= s.firstCode && int(r)-int(s.firstCode) < len(s.entries)), !result1 && result0 == 0)
 //@   modifies nothing
